@@ -1,0 +1,166 @@
+//! Verification hooks, compiled only with `--features verif-hooks`.
+//!
+//! Nothing here is part of svgdx's API; the module exposes seams (scheduling
+//! points, hash iteration order) and probes (internal counters, direct entry
+//! points) to an external checker. With the feature off this file is not
+//! compiled and no call site exists.
+
+use std::cell::{Cell, RefCell};
+use std::collections::{HashMap, HashSet};
+use std::sync::Arc;
+
+use rand::prelude::*;
+use rand_pcg::Pcg32;
+
+use crate::context::{ContextView, ElementMap, TransformerContext, VariableMap};
+use crate::element::SvgElement;
+use crate::errors::Result;
+use crate::position::{BoundingBox, Size};
+use crate::themes::ThemeBuilder;
+use crate::transform::Transformer;
+use crate::types::ElRef;
+use crate::TransformConfig;
+
+/// Internal state observed at the end of a transform, plus work counters.
+#[derive(Debug, Clone, Default, PartialEq, Eq)]
+pub struct Probe {
+    pub scope_depth: usize,
+    pub element_depth: usize,
+    pub current_depth: u32,
+    pub in_specs: bool,
+    pub rng_draws: u64,
+    pub element_evals: u64,
+    pub retry_passes: u64,
+}
+
+type SchedFn = Arc<dyn Fn(&'static str) + Send + Sync>;
+type OrderFn = Arc<dyn Fn(&'static str, &mut Vec<String>) + Send + Sync>;
+
+thread_local! {
+    static RNG_DRAWS: Cell<u64> = const { Cell::new(0) };
+    static ELEMENT_EVALS: Cell<u64> = const { Cell::new(0) };
+    static RETRY_PASSES: Cell<u64> = const { Cell::new(0) };
+    static SCHED: RefCell<Option<SchedFn>> = const { RefCell::new(None) };
+    static ORDER: RefCell<Option<OrderFn>> = const { RefCell::new(None) };
+}
+
+pub(crate) fn count_rng_draw() {
+    RNG_DRAWS.with(|c| c.set(c.get() + 1));
+}
+
+pub(crate) fn count_element_eval() {
+    ELEMENT_EVALS.with(|c| c.set(c.get() + 1));
+}
+
+pub(crate) fn count_retry_pass() {
+    RETRY_PASSES.with(|c| c.set(c.get() + 1));
+}
+
+/// Install (or clear) the scheduling-point callback for the calling thread.
+pub fn set_sched_hook(f: Option<SchedFn>) {
+    SCHED.with(|s| *s.borrow_mut() = f);
+}
+
+/// Install (or clear) the iteration-order callback for the calling thread.
+pub fn set_order_hook(f: Option<OrderFn>) {
+    ORDER.with(|s| *s.borrow_mut() = f);
+}
+
+/// A point at which a controlled scheduler may switch to another transform.
+pub(crate) fn sched_point(tag: &'static str) {
+    let f = SCHED.with(|s| s.borrow().clone());
+    if let Some(f) = f {
+        f(tag);
+    }
+}
+
+/// Hands a list obtained by iterating a hash-based collection to the checker,
+/// which may reorder it (modelling a different hash seed).
+pub(crate) fn iteration_order(site: &'static str, mut items: Vec<String>) -> Vec<String> {
+    let f = ORDER.with(|s| s.borrow().clone());
+    if let Some(f) = f {
+        f(site, &mut items);
+    }
+    items
+}
+
+/// Run a transform and report internal state at its end (successful or not).
+pub fn transform_probe(input: &[u8], cfg: &TransformConfig) -> (Result<Vec<u8>>, Probe) {
+    RNG_DRAWS.with(|c| c.set(0));
+    ELEMENT_EVALS.with(|c| c.set(0));
+    RETRY_PASSES.with(|c| c.set(0));
+    let mut t = Transformer::from_config(cfg);
+    let mut reader = std::io::Cursor::new(input);
+    let mut out = Vec::new();
+    let res = t.transform(&mut reader, &mut out).map(|_| out);
+    let (scope_depth, element_depth, current_depth, in_specs) = t.context.verif_state();
+    let probe = Probe {
+        scope_depth,
+        element_depth,
+        current_depth,
+        in_specs,
+        rng_draws: RNG_DRAWS.with(|c| c.get()),
+        element_evals: ELEMENT_EVALS.with(|c| c.get()),
+        retry_passes: RETRY_PASSES.with(|c| c.get()),
+    };
+    (res, probe)
+}
+
+struct MapContext {
+    vars: HashMap<String, String>,
+    rng: RefCell<Pcg32>,
+}
+
+impl ElementMap for MapContext {
+    fn get_element(&self, _elref: &ElRef) -> Option<&SvgElement> {
+        None
+    }
+    fn get_element_bbox(&self, el: &SvgElement) -> Result<Option<BoundingBox>> {
+        el.bbox()
+    }
+    fn get_element_size(&self, el: &SvgElement) -> Result<Option<Size>> {
+        el.size(self)
+    }
+}
+
+impl VariableMap for MapContext {
+    fn get_var(&self, name: &str) -> Option<String> {
+        self.vars.get(name).cloned()
+    }
+    fn get_rng(&self) -> &RefCell<Pcg32> {
+        count_rng_draw();
+        &self.rng
+    }
+}
+
+impl ContextView for MapContext {}
+
+/// Direct entry to the attribute evaluator with a plain variable map.
+/// Returns the result and the number of PRNG draws.
+pub fn eval_attr_probe(value: &str, vars: &[(&str, &str)], seed: u64) -> (Result<String>, u64) {
+    RNG_DRAWS.with(|c| c.set(0));
+    let ctx = MapContext {
+        vars: vars
+            .iter()
+            .map(|(k, v)| (k.to_string(), v.to_string()))
+            .collect(),
+        rng: RefCell::new(Pcg32::seed_from_u64(seed)),
+    };
+    let res = crate::expression::eval_attr(value, &ctx);
+    (res, RNG_DRAWS.with(|c| c.get()))
+}
+
+/// Direct entry to the theme builder: (defs, styles) for a set of element
+/// names and classes under the given configuration.
+pub fn theme_probe(
+    elements: &[&str],
+    classes: &[&str],
+    cfg: &TransformConfig,
+) -> (Vec<String>, Vec<String>) {
+    let ctx = TransformerContext::from_config(cfg);
+    let elements: HashSet<String> = elements.iter().map(|s| s.to_string()).collect();
+    let classes: HashSet<String> = classes.iter().map(|s| s.to_string()).collect();
+    let mut tb = ThemeBuilder::new(&ctx, &elements, &classes);
+    tb.build();
+    (tb.get_defs(), tb.get_styles())
+}
